@@ -108,6 +108,15 @@ func family(tier string) []*graph {
 			v3.Flag = f
 			v3.FlagType = (i/step + fi) % 5
 			out = append(out, &v3)
+			// lists, and names that only resemble a model type's name
+			if (i/step)%2 == 0 {
+				for form := 1; form <= 5; form++ {
+					v6 := v3
+					v6.FlagForm = form
+					v6.FlagType = (i/step + fi + form) % 5
+					out = append(out, &v6)
+				}
+			}
 		}
 		v4 := *b
 		v4.WithOutput = false
